@@ -1189,14 +1189,16 @@ class Trimesh(Geometry3D):
             else:
                 inverse = None
 
+        # get the normals from cache before dumping: assigning
+        # to `self.faces` changes the hash which clears the cache
+        cached_normals = self._cache["vertex_normals"]
+
         # re-index faces from inverse
         if inverse is not None and util.is_shape(self.faces, (-1, 3)):
             self.faces = inverse[self.faces.reshape(-1)].reshape((-1, 3))
 
         # update the visual object with our mask
         self.visual.update_vertices(mask)
-        # get the normals from cache before dumping
-        cached_normals = self._cache["vertex_normals"]
 
         # apply to face_attributes
         count = len(self.vertices)
